@@ -432,7 +432,7 @@ func exprCorpus() []string {
 		}
 	}
 	extra := []string{
-		"a b c", "a / b / c", "a b / c d", "a / b c / d", "a /", "a b /", "a / b /", "", "a* b+ c?", "!a b", "&a* b", "!(a b) c", "a (b / c)* d", "((a))", "<a b>*", "<a / b> c", "a {x} b", "{x} a", "a\nb", "a # c\n b", "a // c\n b", "a\t/\tb", " a", "a ", "a #c\n", "a\r\nb",
+		"a b c", "a / b / c", "a b / c d", "a / b c / d", "a /", "a b /", "a / b /", "", "a* b+ c?", "!a b", "&a* b", "!(a b) c", "a (b / c)* d", "((a))", "<a b>*", "<a / b> c", "a {x} b", "{x} a", "a\nb", "a # c\n b", "a // c\n b", "a\t/\tb", " a", "a ", "a #c\n", "a\r\nb", "a\rb", "a # c\r b", "a // c\r / b", "a #c\r",
 		"a / 'b' \"c\" [d] [[e]] . {f} <g> (h)", "!'a' . / &[b] 'b' / [^c]+", "'a'?*", "a?+", "'' a", "[] a", "a / ''",
 	}
 	out = append(out, extra...)
@@ -517,6 +517,9 @@ func grammarCorpus() (good, bad []string) {
 		head + "A <- 'a' # tail comment\n  / B // another\nB <- .\n",
 		head + "# comment before the first rule\nA <- 'a'\n\n// comment between rules\n\nB <- A\n# last line comment",
 		head + "A <- 'a'\r\nB <- A\r\n",
+		// a lone carriage return ends a line (and a comment) too
+		head + "A <- 'a'\rB <- A\r",
+		head + "A <- 'a' # one\r / 'b' // two\r / B\rB <- 'c'\r",
 		"# header comment\n// second header comment\n\npackage p\ntype G Peg {}\nA <- .\n",
 		"package p\nimport \"fmt\"\ntype G Peg {}\nA <- .\n",
 		"package p\nimport f \"fmt\"\nimport \"os\"\ntype G Peg {}\nA <- .\n",
